@@ -480,6 +480,10 @@ def _check_file_table(c, bl, ph):
             elif isinstance(st, ast.If) and not st.orelse and reject is None and len(st.body) == 1 and isinstance(st.body[0], ast.If) \
                     and not st.body[0].orelse and len(st.body[0].body) == 1 and norm(st.body[0].body[0]) == "return False":
                 reject = ast.BoolOp(op=ast.And(), values=conds + [sub(st.test), sub(st.body[0].test)])
+            elif isinstance(st, ast.Return) and st is loop.body[-1] and st.value is not None and not isinstance(st.value, ast.Constant):
+                # an unconditional return at the end of the loop body: the verdict of the FIRST present entry decides, later black lists are never consulted
+                return "for %s in %s: ... return %s  [the loop returns on its first pass: only the first black-listed placeholder is consulted]" % (
+                    norm(target), norm(it), norm(st.value)[:80]), False
             else:
                 raise AnalysisError("_check_file: loop statement not understood: %s" % norm(st)[:80])
         if reject is None:
